@@ -38,8 +38,8 @@ def job(j):
             st["samples"].append({"query": g.doc.text, "faults": rec["overlay"], "seq_fields": rec["seq"], "list_concurrently": rec["lconc"],
                                   "schedule": [h["rel"] for h in rec["hist"]], "pending_after_each_release": [h["pending"] for h in rec["hist"]],
                                   "response": info.get("resp")})
-        if mm and len(st["viol"]) < 50:
-            st["viol"].append(({"kind": "schedule-mismatch", "config": cfg, "first": mm[0][:140]},
+        if mm and len(st["viol"]) < 400:
+            genrun.add_viol(st["viol"], ({"kind": "schedule-mismatch", "config": cfg, "first": mm[0][:140]},
                                {"case": rec, "query": g.doc.text, "mismatches": mm, "response": info.get("resp")}))
 
     res = tlc.run(MODULE, cfg, on_line=on_line, workers=1, timeout=3000)
